@@ -115,6 +115,14 @@ def errNil {α : Type} (r : Obj.R α) : Bool :=
   | .ok _ => true
   | .error _ => false
 
+/-- `r.x` of a field pair read without a test of `r.xErr`: the value, or the zero value that lies
+    next to a non-nil error (the translator admits such a read only after checking, on the source
+    of the function that fills the pair, that every error return carries `nil` or an empty literal). -/
+def pairVal {α : Type} [Zero α] (r : Obj.R α) : α :=
+  match r with
+  | .ok v => v
+  | .error _ => zero
+
 /-- `u.String()` for a parsed URL, which is represented by that string. -/
 def urlString (u : Str) : Str := u
 
